@@ -4,7 +4,8 @@ From Alp Require Import Base.Str Base.Types Model.Pull Model.Item.
 Import ListNotations.
 Local Open Scope nat_scope.
 (* what can be seen from outside: some temporary artefact exists *)
-Definition norm (i : item) : item := set_stg (set_tmp i (tmp i || stg i)) false.
+(* (the daemon's memory of its idle updates cannot be seen either) *)
+Definition norm (i : item) : item := set_due (set_stg (set_tmp i (tmp i || stg i)) false) false.
 Definition obs_eqb (a b : item) : bool := item_eqb (norm a) (norm b).
 Fixpoint dedup (l : list item) : list item :=
   match l with
@@ -19,11 +20,14 @@ Fixpoint subseq_b (a b : list item) : bool :=
   end.
 Inductive case :=
 | CTrace (e : env) (b : beh) (i : item) (observed : list item)
-| CRounds (e : env) (i : item) (observed : list item).
+| CRounds (e : env) (i : item) (observed : list item)          (* rounds of restarted daemons from the state a kill left behind *)
+| CRoundsOn (e : env) (b : beh) (i : item) (observed : list item).   (* further rounds of the same daemons after an uninterrupted first iteration *)
 Definition check (c : case) : bool :=
   match c with
   | CTrace e b i obs =>
-      let model := dst_trace e b i ++ [dst_round e b i] in
-      subseq_b (dedup obs) (dedup model) && obs_eqb (last obs i) (dst_round e b i) && obs_eqb (hd i obs) i
-  | CRounds e i obs => list_eqb obs_eqb obs (map (fun n => rounds n e i) (seq 1 (length obs)))
+      let i := set_due i true in
+      let model o := dst_trace_o o e b i ++ [dst_round e b i] in
+      (subseq_b (dedup obs) (dedup (model true)) || subseq_b (dedup obs) (dedup (model false))) && obs_eqb (last obs i) (dst_round e b i) && obs_eqb (hd i obs) i
+  | CRounds e i obs => list_eqb obs_eqb obs (map (fun n => rounds n e (set_due i true)) (seq 1 (length obs)))
+  | CRoundsOn e b i obs => list_eqb obs_eqb obs (map (fun n => rounds n e (dst_round e b (set_due i true))) (seq 1 (length obs)))
   end.
